@@ -81,9 +81,11 @@ def intMultipleOf (k : SKw) : Bool :=
     | .int i => 0 < i && i < 9007199254740992
     | .flt _ _ => false
 
-/-- no two JSON names of one object map to the same Python attribute name -/
+/-- no two JSON names of one object map to the same Python attribute name, and none is empty
+    (an empty name loses its source: `bind` replaces a falsy source by the attribute name) -/
 def noCollapse (cx : PCtx) (k : SKw) (props : List (String × Schema)) : Bool :=
   let names := props.map (·.1) ++ (k.required.getD [])
+  names.all (fun a => a != "") &&
   names.all fun a => names.all fun b =>
     attrName cx.ci cx.reserved a != attrName cx.ci cx.reserved b || a == b
 
